@@ -242,50 +242,53 @@ theorem mac_checked_first (C : PayCrypto) (k : Keys) (hash secret : Bytes) (md :
     secret/metadata/purpose tag and the same even-TLV flag as the part that completed it, the
     sender-intended amounts reach the total, did not reach it before this part, and stay below
     `MAX_VALUE_MSAT`. -/
-theorem claimable_only_if_complete (s : Mpp) (hs : Reachable s) (op : Op) (a d : Nat)
-    (h : Out.claimable a d ∈ (step s op).2) :
-    ∃ id value intended total cltv tag ev, op = .part id value intended total cltv tag ev ∧
+theorem claimable_only_if_complete (s : Mpp) (hs : Reachable s) (op : Op) (a k d : Nat)
+    (h : Out.claimable a k d ∈ (step s op).2) :
+    ∃ id value intended skim total cltv tag ev, op = .part id value intended skim total cltv tag ev ∧
       s.claiming = false ∧
       (∀ p ∈ (step s op).1.parts, p.total = total ∧ p.tag = tag ∧ p.evenTlv = ev) ∧
       total ≤ sumIntended (step s op).1.parts ∧
       sumIntended (step s op).1.parts - intended < total ∧
       sumIntended (step s op).1.parts < MAX_VALUE_MSAT := by
-  obtain ⟨id, value, intended, total, cltv, tag, ev, rfl⟩ := claimable_only_from_part s op a d h
-  refine ⟨id, value, intended, total, cltv, tag, ev, rfl, ?_⟩
-  have hinv := (hs.step (.part id value intended total cltv tag ev)).inv
+  obtain ⟨id, value, intended, skim, total, cltv, tag, ev, rfl⟩ := claimable_only_from_part s op a k d h
+  refine ⟨id, value, intended, skim, total, cltv, tag, ev, rfl, ?_⟩
+  have hinv := (hs.step (.part id value intended skim total cltv tag ev)).inv
   simp only [step] at h hinv ⊢
-  obtain ⟨t, g, e, _, hcl, h1, h2, h3, hmax, hlt, hge, heq, _, _⟩ := stepPart_claimable s _ a d h
+  obtain ⟨t, g, e, _, hcl, h1, h2, h3, hmax, hlt, hge, heq, _, _, _⟩ := stepPart_claimable s _ a k d h
   simp only at h1 h2 h3 hmax hlt hge
   subst h1 h2 h3
   rw [heq] at hinv ⊢
   simp only [sumIntended_completed]
   exact ⟨hcl, hinv.fields, by omega, by omega, by omega⟩
 
-/-- The announced amount is the sum of the values of exactly the held parts (the old ones and the
-    new one), every one of them is marked with it, and the announced deadline is the smallest
+/-- The announced amount is the sum of the VALUES (what arrived) of exactly the held parts (the old
+    ones and the new one), every one of them is marked with it, the announced skimmed fee is the sum
+    of their `counterparty_skimmed_fee_msat`, and the announced deadline is the smallest
     `cltv_expiry` among them minus `HTLC_FAIL_BACK_BUFFER`. -/
-theorem claimable_amount_deadline (s : Mpp) (op : Op) (a d : Nat)
-    (h : Out.claimable a d ∈ (step s op).2) :
-    a = sumValue (step s op).1.parts ∧
+theorem claimable_amount_deadline (s : Mpp) (op : Op) (a k d : Nat)
+    (h : Out.claimable a k d ∈ (step s op).2) :
+    a = sumValue (step s op).1.parts ∧ k = sumSkim (step s op).1.parts ∧
     (∀ p ∈ (step s op).1.parts, p.totalRecv = some a) ∧
-    (∃ id value intended total cltv tag ev, op = .part id value intended total cltv tag ev ∧
+    (∃ id value intended skim total cltv tag ev, op = .part id value intended skim total cltv tag ev ∧
       ((step s op).1.parts.map (·.id)).Perm (s.parts.map (·.id) ++ [id]) ∧
-      a = sumValue s.parts + value) ∧
+      a = sumValue s.parts + value ∧ k = sumSkim s.parts + skim.getD 0) ∧
     ∃ m, m ∈ (step s op).1.parts.map (·.cltv) ∧ (∀ c ∈ (step s op).1.parts.map (·.cltv), m ≤ c) ∧
       d = m - HTLC_FAIL_BACK_BUFFER := by
-  obtain ⟨id, value, intended, total, cltv, tag, ev, rfl⟩ := claimable_only_from_part s op a d h
+  obtain ⟨id, value, intended, skim, total, cltv, tag, ev, rfl⟩ := claimable_only_from_part s op a k d h
   simp only [step] at h ⊢
-  obtain ⟨t, g, e, _, _, _, _, _, _, _, _, heq, ha, hd⟩ := stepPart_claimable s _ a d h
+  obtain ⟨t, g, e, _, _, _, _, _, _, _, _, heq, ha, hk, hd⟩ := stepPart_claimable s _ a k d h
   rw [heq]
   simp only
-  refine ⟨by rw [sumValue_completed]; exact ha, ?_, ⟨id, value, intended, total, cltv, tag, ev, rfl, ?_, ?_⟩, ?_⟩
+  refine ⟨by rw [sumValue_completed]; exact ha, by rw [sumSkim_completed]; exact hk, ?_,
+    ⟨id, value, intended, skim, total, cltv, tag, ev, rfl, ?_, ?_, ?_⟩, ?_⟩
   · intro p hp
     obtain ⟨q0, _, rfl⟩ := mem_completed hp
     rw [ha]
-  · have := (completedParts_perm s { id, value, intended, cltv, ticks := 0, totalRecv := none, total, tag, evenTlv := ev }).map (·.id)
+  · have := (completedParts_perm s { id, value, intended, skim, cltv, ticks := 0, totalRecv := none, total, tag, evenTlv := ev }).map (·.id)
     simpa [List.map_map, Function.comp_def] using this
   · rw [ha, sumValue_append]; simp [sumValue]
-  · cases hmin : minCltv (completedParts s { id, value, intended, cltv, ticks := 0, totalRecv := none, total, tag, evenTlv := ev }) with
+  · rw [hk, sumSkim_append]; simp [sumSkim]
+  · cases hmin : minCltv (completedParts s { id, value, intended, skim, cltv, ticks := 0, totalRecv := none, total, tag, evenTlv := ev }) with
     | none =>
       exfalso
       simp only [minCltv, List.min?_eq_none_iff, List.map_eq_nil_iff] at hmin
@@ -298,8 +301,8 @@ theorem claimable_amount_deadline (s : Mpp) (op : Op) (a d : Nat)
 /-- A part that arrives when the held set is already complete is failed back on its own; the set
     (and its announcement) is untouched. -/
 theorem late_part_rejected (s : Mpp) (hne : s.parts ≠ []) (hc : s.total ≤ sumIntended s.parts)
-    (id value intended total cltv tag : Nat) (ev : Bool) :
-    step s (.part id value intended total cltv tag ev) = (s, [.failPart id]) := by
+    (id value intended : Nat) (skim : Option Nat) (total cltv tag : Nat) (ev : Bool) :
+    step s (.part id value intended skim total cltv tag ev) = (s, [.failPart id]) := by
   simp only [step]
   exact stepPart_late s _ hne hc
 
@@ -344,7 +347,7 @@ theorem all_or_nothing (s : Mpp) (hs : Reachable s) (op : Op) :
     (¬ ∃ i j, Out.fulfilPart i ∈ (step s op).2 ∧ Out.failPart j ∈ (step s op).2) ∧
     ((∃ i, Out.fulfilPart i ∈ (step s op).2) →
       ∃ known amt, op = .claim known ∧
-        (step s op).2 = s.parts.map (fun q => Out.fulfilPart q.id) ++ [.claimed amt] ∧
+        (step s op).2 = s.parts.map (fun q => Out.fulfilPart q.id) ++ [.claimed amt (sumSkim s.parts) s.total] ∧
         amt = sumValue s.parts ∧ (∀ p ∈ s.parts, p.totalRecv = some amt) ∧
         (step s op).1.parts = [] ∧ (step s op).1.claiming = true) ∧
     (∀ known, op = .claim known →
@@ -352,13 +355,13 @@ theorem all_or_nothing (s : Mpp) (hs : Reachable s) (op : Op) :
       ((step s op).2 = [] ∨ (step s op).2 = [.inconsistent] ∨
        (step s op).2 = s.parts.map (fun q => Out.failPart q.id) ∨
        (step s op).2 = .inconsistent :: s.parts.map (fun q => Out.failPart q.id) ∨
-       ∃ amt, (step s op).2 = s.parts.map (fun q => Out.fulfilPart q.id) ++ [.claimed amt])) ∧
+       ∃ amt, (step s op).2 = s.parts.map (fun q => Out.fulfilPart q.id) ++ [.claimed amt (sumSkim s.parts) s.total])) ∧
     (op = .failBack → (step s op).2 = s.parts.map (fun q => Out.failPart q.id) ∧ (step s op).1.parts = []) ∧
     (op = .tick → (step s op).2 = [] ∨
       ((step s op).2 = s.parts.map (fun q => Out.failPart q.id) ∧ (step s op).1.parts = [])) := by
   have hful : (∃ i, Out.fulfilPart i ∈ (step s op).2) →
       ∃ known amt, op = .claim known ∧
-        (step s op).2 = s.parts.map (fun q => Out.fulfilPart q.id) ++ [.claimed amt] ∧
+        (step s op).2 = s.parts.map (fun q => Out.fulfilPart q.id) ++ [.claimed amt (sumSkim s.parts) s.total] ∧
         amt = sumValue s.parts ∧ (∀ p ∈ s.parts, p.totalRecv = some amt) ∧
         (step s op).1.parts = [] ∧ (step s op).1.claiming = true := by
     rintro ⟨i, hi⟩
@@ -392,21 +395,22 @@ theorem all_or_nothing (s : Mpp) (hs : Reachable s) (op : Op) :
     sequence of further parts, timer ticks, blocks at heights `< d` and claim completions pass
     (`Quiet d`): then no held part has been failed (the on-chain timeout fails none of them, ticks
     none, the only failures are the late parts themselves), and `claim_funds` releases the preimage
-    on every part of the announced set and reports `PaymentClaimed` for exactly `a` — unless the
+    on every part of the announced set and reports `PaymentClaimed` for exactly `a` (with the announced
+    skimmed fee `k` and the onion total) — whatever was skimmed off or over-paid on the parts — unless the
     payment carries even custom TLVs and the plain `claim_funds` was used, in which case every part
     is failed (still all-or-nothing). -/
-theorem claim_before_deadline_total (s : Mpp) (hs : Reachable s) (op : Op) (a d : Nat)
-    (h : Out.claimable a d ∈ (step s op).2) (ops : List Op) (hq : ∀ o ∈ ops, Quiet d o) (known : Bool) :
+theorem claim_before_deadline_total (s : Mpp) (hs : Reachable s) (op : Op) (a k d : Nat)
+    (h : Out.claimable a k d ∈ (step s op).2) (ops : List Op) (hq : ∀ o ∈ ops, Quiet d o) (known : Bool) :
     (∀ o ∈ (run (step s op).1 ops).2, ∃ i, o = .failPart i ∧ i ∈ partIds ops) ∧
     ids (run (step s op).1 ops).1 = ids (step s op).1 ∧
     ((known = true ∨ (step s op).1.evenTlv = false) →
       (step (run (step s op).1 ops).1 (.claim known)).2 =
-        (ids (step s op).1).map Out.fulfilPart ++ [.claimed a]) ∧
+        (ids (step s op).1).map Out.fulfilPart ++ [.claimed a k (step s op).1.total]) ∧
     ((known = false ∧ (step s op).1.evenTlv = true) →
       (step (run (step s op).1 ops).1 (.claim known)).2 = (ids (step s op).1).map Out.failPart) := by
-  obtain ⟨hamt, hmark, _, m, hm1, hm2, hd⟩ := claimable_amount_deadline s op a d h
-  obtain ⟨id, value, intended, total, cltv, tag, ev, hop, hcl, _, hge, _, _⟩ :=
-    claimable_only_if_complete s hs op a d h
+  obtain ⟨hamt, hskim, hmark, _, m, hm1, hm2, hd⟩ := claimable_amount_deadline s op a k d h
+  obtain ⟨id, value, intended, skim, total, cltv, tag, ev, hop, hcl, _, hge, _, _⟩ :=
+    claimable_only_if_complete s hs op a k d h
   have hinv := (hs.step op).inv
   have hready : Ready (step s op).1 a d := by
     refine ⟨?_, hmark, hamt.symm, ?_, ?_, ?_⟩
@@ -415,7 +419,7 @@ theorem claim_before_deadline_total (s : Mpp) (hs : Reachable s) (op : Op) (a d 
       have : (step s op).1.total = total := by
         subst hop
         simp only [step] at h ⊢
-        obtain ⟨t, g, e, _, _, _, h2, _, _, _, _, heq, _, _⟩ := stepPart_claimable s _ a d h
+        obtain ⟨t, g, e, _, _, _, h2, _, _, _, _, heq, _, _, _⟩ := stepPart_claimable s _ a k d h
         rw [heq]; exact h2.symm
       rw [this]; exact hge
     · intro p hp
@@ -423,16 +427,16 @@ theorem claim_before_deadline_total (s : Mpp) (hs : Reachable s) (op : Op) (a d 
       rw [hd]; simp only [claimDeadline]; omega
     · subst hop
       simp only [step] at h ⊢
-      obtain ⟨t, g, e, _, hc, _, _, _, _, _, _, heq, _, _⟩ := stepPart_claimable s _ a d h
+      obtain ⟨t, g, e, _, hc, _, _, _, _, _, _, heq, _, _, _⟩ := stepPart_claimable s _ a k d h
       rw [heq]; exact hc
-  obtain ⟨g1, g2, g3, g4⟩ := hready.run_quiet ops hq
+  obtain ⟨g1, g2, g3, g4, g5, g6⟩ := hready.run_quiet ops hq
   refine ⟨g4, g2, fun hk => ?_, fun hk => ?_⟩
   · have e : ∀ t, step t (.claim known) = stepClaim t known := fun _ => rfl
     rw [e, ((g1.claim known).1 (by rw [g3]; exact hk))]
     have e2 : ∀ l : List Part, l.map (fun q => Out.fulfilPart q.id) = (l.map (·.id)).map Out.fulfilPart := by
       intro l; simp [List.map_map, Function.comp_def]
     simp only [ids] at g2 ⊢
-    rw [e2, g2]
+    rw [e2, g2, g5, g6, ← hskim]
   · have e : ∀ t, step t (.claim known) = stepClaim t known := fun _ => rfl
     rw [e, ((g1.claim known).2 (by rw [g3]; exact hk))]
     have e2 : ∀ l : List Part, l.map (fun q => Out.failPart q.id) = (l.map (·.id)).map Out.failPart := by
@@ -445,7 +449,7 @@ theorem claim_before_deadline_total (s : Mpp) (hs : Reachable s) (op : Op) (a d 
     as no new complete set is announced — no preimage is ever released for this payment hash. -/
 theorem none_if_part_lost (s : Mpp) (hs : Reachable s) (h : Nat) (q : Part) (hq : q ∈ s.parts) (x : Nat)
     (hx : q.totalRecv = some x) (hpos : 0 < q.value) (hto : mppOnchainTimeout h q.cltv = true)
-    (ops : List Op) (hno : ∀ a d, Out.claimable a d ∉ (run (step s (.block h)).1 ops).2) (i : Nat) :
+    (ops : List Op) (hno : ∀ a k d, Out.claimable a k d ∉ (run (step s (.block h)).1 ops).2) (i : Nat) :
     Out.failPart q.id ∈ (step s (.block h)).2 ∧
     Out.fulfilPart i ∉ (run (step s (.block h)).1 ops).2 := by
   constructor
@@ -458,8 +462,8 @@ theorem none_if_part_lost (s : Mpp) (hs : Reachable s) (h : Nat) (q : Part) (hq 
     | nil => simp [run]
     | cons op ops ih =>
       simp only [run, List.mem_append, not_or] at hno ⊢
-      have hno1 : ∀ a d, Out.claimable a d ∉ (step s1 op).2 := fun a d hm => (hno a d).1 hm
-      refine ⟨?_, ih _ (hshort.preserved op hno1) (hreach.step op) (fun a d hm => (hno a d).2 hm)⟩
+      have hno1 : ∀ a k d, Out.claimable a k d ∉ (step s1 op).2 := fun a k d hm => (hno a k d).1 hm
+      refine ⟨?_, ih _ (hshort.preserved op hno1) (hreach.step op) (fun a k d hm => (hno a k d).2 hm)⟩
       intro hm
       obtain ⟨known, rfl⟩ := fulfil_only_from_claim s1 op i hm
       exact Short.claim_none hreach.inv hshort known i hm
@@ -524,23 +528,23 @@ example :
 
 -- the accumulator: two parts complete a 1000-msat payment (deadline = min cltv − 39), blocks below
 -- the deadline change nothing, the claim fulfils both parts
-example : (run Mpp.init [.part 1 600 600 1000 500 1 false, .tick]).2 = [.failPart 1] := by decide
-example : (run Mpp.init [.part 2 600 600 1000 500 1 false, .part 1 400 400 1000 480 1 false,
-      .part 3 10 10 1000 500 1 false, .tick, .block 440, .claim false]).2 =
-    [.claimable 1000 441, .failPart 3, .fulfilPart 1, .fulfilPart 2, .claimed 1000] := by decide
+example : (run Mpp.init [.part 1 600 600 none 1000 500 1 false, .tick]).2 = [.failPart 1] := by decide
+example : (run Mpp.init [.part 2 600 600 none 1000 500 1 false, .part 1 400 400 none 1000 480 1 false,
+      .part 3 10 10 none 1000 500 1 false, .tick, .block 440, .claim false]).2 =
+    [.claimable 1000 0 441, .failPart 3, .fulfilPart 1, .fulfilPart 2, .claimed 1000 0 1000] := by decide
 -- at the deadline the part with the smallest expiry is failed; the claim then releases nothing
-example : (run Mpp.init [.part 2 600 600 1000 500 1 false, .part 1 400 400 1000 480 1 false,
-      .block 441, .claim false]).2 = [.claimable 1000 441, .failPart 1] := by decide
+example : (run Mpp.init [.part 2 600 600 none 1000 500 1 false, .part 1 400 400 none 1000 480 1 false,
+      .block 441, .claim false]).2 = [.claimable 1000 0 441, .failPart 1] := by decide
 example : Quiet 441 (.block 440) ∧ ¬ Quiet 441 (.block 441) := by simp [Quiet]
-example : (partIds [.part 2 600 600 1000 500 1 false, .part 1 400 400 1000 480 1 false, .block 441, .claim false]).Nodup := by decide
+example : (partIds [.part 2 600 600 none 1000 500 1 false, .part 1 400 400 none 1000 480 1 false, .block 441, .claim false]).Nodup := by decide
 -- onion-field mismatch, over-payment bound, even TLVs with the plain claim
-example : (run Mpp.init [.part 1 600 600 1000 500 1 false, .part 2 400 400 999 500 1 false]).2 = [.failPart 2] := by decide
-example : (run Mpp.init [.part 1 600 600 1000 500 1 true, .part 2 400 400 1000 500 1 true, .claim false]).2 =
-    [.claimable 1000 461, .failPart 1, .failPart 2] := by decide
-example : (run Mpp.init [.part 1 5 5 (MAX_VALUE_MSAT + 9) 500 1 false, .part 2 MAX_VALUE_MSAT MAX_VALUE_MSAT (MAX_VALUE_MSAT + 9) 500 1 false]).2 =
+example : (run Mpp.init [.part 1 600 600 none 1000 500 1 false, .part 2 400 400 none 999 500 1 false]).2 = [.failPart 2] := by decide
+example : (run Mpp.init [.part 1 600 600 none 1000 500 1 true, .part 2 400 400 none 1000 500 1 true, .claim false]).2 =
+    [.claimable 1000 0 461, .failPart 1, .failPart 2] := by decide
+example : (run Mpp.init [.part 1 5 5 none (MAX_VALUE_MSAT + 9) 500 1 false, .part 2 MAX_VALUE_MSAT MAX_VALUE_MSAT none (MAX_VALUE_MSAT + 9) 500 1 false]).2 =
     [.failPart 2] := by decide
 -- the "should not be reachable" branch of claim_payment_internal is reachable in the model
-example : (run Mpp.init [.part 1 600 600 1000 500 1 false, .part 2 400 400 1000 480 1 false, .block 441,
-      .part 3 100 100 1000 600 1 false, .claim false]).2 = [.claimable 1000 441, .failPart 2, .inconsistent] := by decide
+example : (run Mpp.init [.part 1 600 600 none 1000 500 1 false, .part 2 400 400 none 1000 480 1 false, .block 441,
+      .part 3 100 100 none 1000 600 1 false, .claim false]).2 = [.claimable 1000 0 441, .failPart 2, .inconsistent] := by decide
 
 end Ldk.C04
